@@ -65,6 +65,7 @@ type iterRec struct {
 	mapTyp   *types.Map
 	visited  string // local comp name (Array K Bool)
 	startDom string // term: domain at range start
+	count    string // local comp name: number of keys produced so far
 	isString bool
 }
 
@@ -114,6 +115,9 @@ type Enc struct {
 	curContractFn string
 	sentinels []string
 	frameTargets map[string][]*modTarget
+	inlineCount map[string]int
+	curCallees  []*ssa.Function // callee(s) of the call whose effects are being havocked
+	dtHdr       []string        // datatype declarations (always emitted before everything else)
 }
 
 func newEnc(w *World, cs *Contracts, mods *ModAnalysis) *Enc {
@@ -338,7 +342,7 @@ func (e *Enc) structSort(t types.Type, u *types.Struct) string {
 		f := u.Field(i)
 		fs = append(fs, fmt.Sprintf("(%s_%s %s)", name, sanitize(f.Name()), e.sortOf(f.Type())))
 	}
-	e.hdr = append(e.hdr, fmt.Sprintf("(declare-datatypes ((%s 0)) (((mk_%s %s))))", name, name, strings.Join(fs, " ")))
+	e.dtHdr = append(e.dtHdr, fmt.Sprintf("(declare-datatypes ((%s 0)) (((mk_%s %s))))", name, name, strings.Join(fs, " ")))
 	return name
 }
 
@@ -775,7 +779,18 @@ func (e *Enc) query(o *Obl, withModel bool) string {
 		b.WriteString("(set-option :produce-models true)\n")
 	}
 	b.WriteString("(set-logic ALL)\n")
-	for _, h := range e.hdr {
+	if len(e.hdr) > 0 {
+		b.WriteString(e.hdr[0]) // base sorts
+		b.WriteString("\n")
+	}
+	for _, h := range e.dtHdr {
+		b.WriteString(h)
+		b.WriteString("\n")
+	}
+	for hi, h := range e.hdr {
+		if hi == 0 {
+			continue
+		}
 		if o.Cover && strings.Contains(h, "(forall ") {
 			// covers are checked against the ground part of the context only (decidable)
 			for _, hl := range strings.Split(h, "\n") {
